@@ -38,7 +38,7 @@ def switching(spec):
 
     p = corpus.make_problem(spec)
     kw = dict(spec["kwargs"])
-    kind, kswitch = spec["rewrite"], spec["k"]
+    kind, kswitch, style = spec["rewrite"], spec["k"], spec.get("style", "new")
     rng = np.random.default_rng([spec["pseed"], 13])
     reg_c = rng.normal(0, 1, p.n)
     w = {"v": 0.0 if kind == "reweight" else 1.0}
@@ -70,6 +70,16 @@ def switching(spec):
             else:  # adversarial: flip the sign of some stored gradients (no consistent objective)
                 G2 = deque((-gi if flips[i % 20] else gi.copy()) for i, gi in enumerate(G))
                 out = (f0, f0_old, grad, G2)
+            if style != "new":
+                # the same rewrite handed back through the deque the solver passed in: "replace" stores the new
+                # arrays in it, "inplace" overwrites the stored arrays; both return the very same deque object
+                new = [np.array(v, dtype=float, copy=True) for v in out[3]]
+                for i, v in enumerate(new):
+                    if style == "inplace" and G[i].flags.writeable:
+                        G[i][...] = v
+                    else:
+                        G[i] = v
+                out = (out[0], out[1], out[2], G)
             seen.update(X=[np.array(v, copy=True) for v in X], G=[np.array(v, copy=True) for v in out[3]],
                         x=np.array(x, copy=True), grad=np.array(out[2], copy=True), at=len(log.pts))
             return out
@@ -155,6 +165,7 @@ def specs(ctx):
                            "maxiter": int(rng.integers(3, 10)), "maxfun": 400, "maxls": 20}}
         s = dict(base)
         s["rewrite"] = ["rescale", "reweight", "adversarial"][i % 3]
+        s["style"] = ["new", "inplace", "replace"][(i // 3) % 3]
         s["k"] = int(rng.integers(1, base["kwargs"]["maxiter"]))
         sw.append(s)
         if i % 2 == 0:
